@@ -273,11 +273,19 @@ impl Property for C16Prop {
 
 /// two shared cells, each updated from the content of the other: (setup yielding (a, b, f, g), f and g
 /// take the iteration number; every value they return and the final contents are subsets of `mask`)
-const CROSS: [(&str, i64); 9] = [
+const CROSS: [(&str, i64); 15] = [
     ("a := mut 5; b := mut 48; f := (k: int) -> int { return a |= *b; }; g := (k: int) -> int { return b |= *a; }; (a, b, f, g)", 0x35),
     ("a := mut 5; b := mut 48; f := (k: int) -> int { a = *b; return a |= *b; }; g := (k: int) -> int { b = *a; return b |= *a; }; (a, b, f, g)", 0x35),
     ("a := mut 255; b := mut 15; f := (k: int) -> int { return a &= *b | 3; }; g := (k: int) -> int { return b &= *a | 12; }; (a, b, f, g)", 0xff),
     ("a := mut [int] [1]; b := mut [int] [2]; f := (k: int) -> int { return std.len(a = *b) & 1; }; g := (k: int) -> int { return std.len(b = *a) & 1; }; (a, b, f, g)", 1),
+    // one expression that reads a cell more than once (index computed from the cell itself, both operands,
+    // several arguments, a test and a use) while other executions assign to the cell
+    ("a := mut [int] [1, 2]; b := 0; f := (k: int) -> int { return (*a)[std.len(*a) - 1] & 0; }; g := (k: int) -> int { a = [k, k]; return 0; }; (a, b, f, g)", 0),
+    ("a := mut [int] [1, 2]; b := 0; f := (k: int) -> int { return (*a)[0:std.len(*a)][0] & 0; }; g := (k: int) -> int { a = [k, k + 1]; return 0; }; (a, b, f, g)", 0),
+    ("a := mut [int] [1, 2]; b := 0; f := (k: int) -> int { return std.len(*a + *a) & 3; }; g := (k: int) -> int { a = [k, k]; return 0; }; (a, b, f, g)", 0),
+    ("a := mut [int] [1, 2]; b := 0; h := (x: [int], y: [int], i: int) -> int { return x[i] - x[i]; }; f := (k: int) -> int { return h(*a, *a, std.len(*a) - 1); }; g := (k: int) -> int { a = [k, k]; return 0; }; (a, b, f, g)", 0),
+    ("a := mut \"ab\"; b := 0; f := (k: int) -> int { return std.len((*a)[std.len(*a) - 1]) & 0; }; g := (k: int) -> int { a = \"cd\"; return 0; }; (a, b, f, g)", 0),
+    ("a := mut [int]|string [1, 2]; b := 0; f := (k: int) -> int { if x: [int] = *a { return x[std.len(x) - 1] & 0; } return 0; }; g := (k: int) -> int { if k % 2 == 0 { a = \"s\"; } else { a = [k, k]; }; return 0; }; (a, b, f, g)", 0),
     // cells that contain themselves (directly, inside an array / tuple / struct, or one another),
     // rendered as text by some executions while others assign to them
     ("a := mut any 0; a = a; b := 0; f := (k: int) -> int { return std.len(std.convert.to_string(a)) & 0; }; g := (k: int) -> int { a = a; return 0; }; (a, b, f, g)", 0),
@@ -412,7 +420,11 @@ fn cell_position_bodies() -> Vec<String> {
 
 /// more functions whose calls share nothing: what a call answers depends on its argument alone, also
 /// when the call before it (on this or another thread) took another arm, branch or path
-const ISOLATED_MORE: [&str; 9] = [
+const ISOLATED_MORE: [&str; 12] = [
+    // executions that are many calls deep at the same time (work at the bottom of the recursion keeps them there)
+    "f := (n: int) -> int { g := (k: int) -> int { if k <= 0 { i := mut 0; while *i < 400 { i += 1; } return *i; } return 1 + g(k - 1); }; return g(90 + n); }",
+    "f := (n: int) -> int { odd := (k: int, ev: (int) -> int) -> int { if k <= 0 { i := mut 0; while *i < 300 { i += 1; } return 0; } return 1 + ev(k - 1); }; even := (k: int) -> int { if k <= 0 { return 0; } return 1 + odd(k - 1, even); }; return even(120 + n); }",
+    "f := (n: int) -> int { down := (k: int) -> [int] { if k <= 0 { return [0; 200]~ @ (x: int) -> int { return x + 1; } $]; } return down(k - 1) + [k]; }; return std.len(down(70 + n)); }",
     "f := (n: int) -> string { v := [2.5, n, 0][n % 3]; return match v { 0 => \"zero\", x: int => \"int\", x: int|float => \"number\", }; }",
     "f := (n: int) -> string { v := [2.5, n, \"s\"][n % 3]; if x: int = v { return \"int\"; } if x: int|float = v { return \"number\"; } return \"other\"; }",
     "f := (n: int) -> any { t := [(n, 1), (n, 1, 2)][n % 2]; return match t { (20, 1) => \"pair 20\", x: (int, int) => \"pair\", x: (int, int, int) => \"triple\", => \"other\", }; }",
